@@ -1,2 +1,23 @@
 import Gossamer.Props.C28
 open Gossamer.C28
+#print axioms C28_inv_init
+#print axioms C28_inv_preserved
+#print axioms C28_inv_reachable
+#print axioms C28_no_overlap
+#print axioms C28_alloc_result
+#print axioms C28_frame
+#print axioms C28_bad_free
+#print axioms C28_double_free
+#print axioms C28_freed_after_free
+#print axioms C28_poisoned_sticky
+#print axioms C28_error_poisons
+#print axioms C28_too_large
+#print axioms C28_order_spec
+#print axioms C28_max_memory
+#print axioms C28_max_memory_run
+#print axioms C28_heap_base_partial
+#print axioms C28_heap_base_counterexample
+#print axioms C28_opsok_example
+#print axioms C28_bad_free_forged_counterexample
+#print axioms hashStore_lawful
+#print axioms funStore_lawful
